@@ -31,13 +31,15 @@ func cmdWarmup(args []string) int {
 	sort.Strings(pl)
 	prog, err := LoadProgram(repoDir(), pl, nil)
 	if err != nil {
-		fmt.Fprintln(os.Stderr, "load:", err)
-		return 2
+		// warming the build cache is an optimisation: a failure here must not fail the setup (the checks
+		// themselves report what is wrong with the tree)
+		fmt.Fprintln(os.Stderr, "warmup skipped: load:", err)
+		return 0
 	}
 	prog.CS = cs
 	if err := prog.LoadConsts(); err != nil {
-		fmt.Fprintln(os.Stderr, "consts:", err)
-		return 2
+		fmt.Fprintln(os.Stderr, "warmup skipped: consts:", err)
+		return 0
 	}
 	fmt.Printf("warmup: %d packages, %d contracts, %d constants, %.1fs\n", len(pl), len(cs.Funcs), len(prog.Consts), time.Since(t0).Seconds())
 	return 0
